@@ -1,5 +1,5 @@
 /-
-  Model/UnixutilFloat.lean — the floating-point conversions of C18, over the software
+  Model/F64P_UnixutilFloat.lean — the floating-point conversions of C18, over the software
   double of Model/F64.lean.
 
   Go: base/unixutil/freq.go (ScaledPPMFromFreq, FreqFromScaledPPM),
@@ -7,7 +7,7 @@
       base/timemath/timemath.go (Duration), time.Duration.Seconds.
 -/
 import ScionTime.Model.F64
-namespace ScionTime.UnixutilFloat
+namespace ScionTime.F64P_UnixutilFloat
 open ScionTime.F64
 
 /-- `65536.0 * 1e6`: an untyped constant expression, evaluated exactly by the compiler
@@ -35,4 +35,4 @@ def drift (c : F64) (duration : Int) : Int :=
 /-- `NewSystemClock(log, d).Drift(duration)`: the field is `d.Seconds()`. -/
 def driftOfDuration (d : Int) (duration : Int) : Int := drift (durationSeconds d) duration
 
-end ScionTime.UnixutilFloat
+end ScionTime.F64P_UnixutilFloat
